@@ -442,6 +442,12 @@ impl «id:templ|FooFeature» with { «mut:impl|light¦nope¦light, nope¦light, 
     }¦fn dimm(self: $Lamp, percent: int) -> bool {
         println(self.level, percent);
         true
+    }¦fn dim(self: $Lamp, percent: int) -> bool {
+        println(self.level, percent);
+        true
+    }
+    fn set_temp(self: $Lamp, celsius: float) {
+        println(self.lit, celsius);
     }»
 }
 
